@@ -55,7 +55,8 @@ theorem telStep_bounds (cfg : Cfg) (opts : Nat) (buf : Str) (evs : List Ev) (o c
           by_cases h3 : buf.length < 3
           · simp [h3] at h
           · simp only [h3, if_false] at h
-            split at h <;> (cases h; omega)
+            repeat' split at h
+            all_goals (cases h; omega)
         · simp only [hn, if_false] at h
           by_cases hsb : buf.getD 1 0 = 250
           · simp only [hsb, if_true] at h
@@ -72,7 +73,7 @@ theorem telStep_bounds (cfg : Cfg) (opts : Nat) (buf : Str) (evs : List Ev) (o c
                   obtain ⟨hlt, _⟩ := List.findIdx?_eq_some_iff_getElem.mp hk
                   simp at hlt; omega
           · simp only [hsb, if_false] at h
-            cases h; omega
+            split at h <;> (cases h; omega)
 
 
 /-! ### the loop does not depend on the fuel once it exceeds the buffer length -/
